@@ -365,7 +365,7 @@ def replay_candidate(pid, ctx, ob, q, solver, a):
     own functions, renders help natively and reports which members panic.  A member counts as the
     reproduction of this obligation iff it panics natively AND the solver confirms the obligation
     is violated under exactly that member's measured values."""
-    out_dir = os.path.join(VERIF, "replays", pid)
+    out_dir = os.path.join(os.environ.get("VERIF_REPLAY_DIR", os.path.join(VERIF, "replays")), pid)
     os.makedirs(out_dir, exist_ok=True)
     path = os.path.join(out_dir, f"{ob['target']}_{ob['block']}.txt")
     res = {"reproduced": False, "path": path, "tried": []}
